@@ -66,6 +66,7 @@ class Machine:
         are then counted from the unread end (kind rpos) and a read at position p looks at region index (rem - 1) - (p - B)."""
         self.param = param
         self.mirror = mirror
+        self.exact_len = False      # mirror mode: the buffer ends exactly where the region ends (its length is known, not a lower bound)
         self.extra_summary = extra_summary
         self.from_impl = None       # optional: (error value, current fn) -> name of the crate's From impl that `?` applies to the error
         self.bodies = bodies
@@ -290,7 +291,7 @@ class Machine:
 
     def length(self, sl):
         n = self.sub(sl[2], sl[1])
-        return ('lb', n) if self.mirror and sl[2] == N('len', 0) and sl[1] == A0 else n
+        return ('lb', n) if self.mirror and not self.exact_len and sl[2] == N('len', 0) and sl[1] == A0 else n
 
     def offset(self, st, num):
         """index of the character at position `num`, relative to the frontier (0 = the next character to be fixed, -1 = the last fixed)"""
@@ -455,6 +456,13 @@ class Machine:
                     raise Unsupported(f'field of {v[0]}')
             elif k == 'downcast':
                 pass
+            elif k == 'constindex':
+                if not (isinstance(v, tuple) and v and v[0] == 'str') or pr.get('from_end'):
+                    raise Unsupported('constant index pattern on something that is not the text (or counted from the end)')
+                o = self.char_at(st, self.add(v[1], N('abs', pr['offset'])))
+                if isinstance(o, Retry):
+                    raise RetryExc(o)
+                v = ('chr', o)
             elif k == 'index':
                 if not (isinstance(v, tuple) and v and v[0] == 'str'):
                     raise Unsupported('indexing of something that is not the text')
@@ -818,7 +826,7 @@ class Machine:
             rg = args[1]
             kind = rg[1].rsplit('::', 1)[-1]
             lo = self.add(a0[1], rg[3][0]) if kind in ('Range', 'RangeFrom') else a0[1]
-            hi = self.add(a0[1], rg[3][1]) if kind == 'Range' else (self.add(a0[1], rg[3][0]) if kind == 'RangeTo' else a0[2])
+            hi = self.add(a0[1], rg[3][1]) if kind == 'Range' else (self.add(a0[1], rg[3][0]) if kind == 'RangeTo' else self.add(self.add(a0[1], rg[3][0]), A1) if kind == 'RangeToInclusive' else a0[2])
             outs = []
             # lo <= hi <= end of the slice, else the indexing panics
             for sg, s2 in self.sign(st, lo, hi):
@@ -831,7 +839,7 @@ class Machine:
                         continue
                     outs.append((('str', lo, hi), s3))
             return outs
-        if name.endswith('PartialEq<&B> for &A>::eq') or name.endswith('PartialEq>::eq') or name == 'core::str::traits::<impl std::cmp::PartialEq for str>::eq':
+        if name.endswith('PartialEq<&B> for &A>::eq') or name.endswith('PartialEq>::eq') or name == 'core::str::traits::<impl std::cmp::PartialEq for str>::eq' or name.endswith('PartialEq<[U; N]> for &[T]>::eq') or name.endswith('PartialEq<[U; N]> for [T]>::eq') or name.endswith('PartialEq<[U]> for [T]>::eq'):
             x, y = args
             if x[0] == 'lit':
                 x, y = y, x
@@ -852,7 +860,7 @@ class Machine:
                         res.append(o)
                 return res
             raise Unsupported('string comparison that is not slice == literal')
-        if name == 'core::str::<impl str>::starts_with' and a0[0] == 'str' and args[1][0] == 'lit':
+        if name in ('core::str::<impl str>::starts_with', 'core::slice::<impl [T]>::starts_with') and a0[0] == 'str' and args[1][0] == 'lit':
             outs = []
             for item in self.match_prefix(st, a0, args[1][1]):
                 outs.append(item if isinstance(item, Retry) else (N('abs', int(item[0] != NONE)), item[1]))
